@@ -548,7 +548,7 @@ fn main() {
                     let pt = flow::parse_perturb(v["perturb"].as_str().unwrap_or("none"));
                     // hash order varies per compilation: try several
                     for _ in 0..20 {
-                        flow::check_case(&mut rep, &case, json!("replay"), Some((&inp, &pt)));
+                        flow::check_case(&mut rep, &case, json!("replay"), Some((&inp, &pt)), None);
                         if !rep.impl_violations.is_empty() {
                             break;
                         }
